@@ -75,6 +75,11 @@ def opVm (j : Json) : P Json := do
               ("steps", toJson n), ("den", resToJson (vden g dcfg)), ("sig", toJson g.signature),
               ("graph_ok", .bool g.okB), ("call_ok", .bool (g.callOKB env)),
               ("cached_ok", .bool (g.okCB && g.plainB dcfg && w0.stores.all (·.exact))),
+              ("static_decoded",
+                match g.usedInputs.head?.bind (fun i => env (g.node i).name) with
+                | some x => if g.plainGB dcfg x then
+                    (match g.hashGraph.toOption.bind (evalG x) with | some v => valToJson v | none => .null) else .null
+                | none => .null),
               ("decoded", match hden g dcfg with
                 | .ok h => if g.plainB dcfg then valToJson (decode h) else .null
                 | .error _ => .null),
